@@ -10,7 +10,9 @@ EXPLANATION = ('That each returned formula is a Craig interpolant and that I_i a
                'Decided is the protocol that makes the k-1 requests a *sequence* in the first place: Interpret::getInterpolants builds the A-masks cumulatively (one mask variable that '
                'lives across the group loop, only ever gains bits, and is appended exactly once per accepted group, for the groups 1..k-1 in order), and '
                'InterpolationContext::getPathInterpolants answers every mask, in order, with one interpolant. With non-nested masks or a skipped / reordered mask the result is not a '
-               'path interpolant whatever the interpolation engine computes.')
+               'path interpolant whatever the interpolation engine computes. For the proof-sensitive Boolean algorithms the colour of a shared variable depends on the cut; decided is '
+               'that it moves only from b towards a along the sequence (abstract evaluation of computePSFunction and of the PS / PSW / PSS leaf-colouring lambdas), the condition '
+               'under which a family of labelled interpolation systems keeps the path property.')
 
 
 class MaskLoop(Client):
@@ -175,4 +177,89 @@ def run(src, tier, seed):
         raise AnalysisBroken('getInterpolants: dispatch between getPathInterpolants and getSingleInterpolant not found')
     else:
         res.bad(r, 'dispatch', fx.loc(gi), 'Interpret::getInterpolants no longer chooses the path form exactly when there is more than one mask')
+    ps_labelling_rule(fx, res)
     return res
+
+
+RANK = {'colorB': 0, 'colorAB': 1, 'colorA': 2}
+LEAVES = {0: ['v', 'w', 'u'], 1: ['v', 'u'], 2: ['v', 'u'], 3: ['v'], 4: ['v', 'w']}
+
+
+def ps_labelling_rule(fx, res):
+    """The proof-sensitive algorithms (PS, PSW, PSS) colour a shared variable from its occurrence counts in the A and B leaves.  In a sequence request the
+    cut moves to the right, occurrences move from B to A.  A family of labelled interpolation systems has the path-interpolation property only if the
+    colour of every shared variable moves monotonically in the order b <= ab <= a along the sequence (Rollini, Sery, Sharygina: PeRIPLO / "Leveraging
+    interpolant strength"; the mirrored family was replayed: seeded/C09-ps-labeling-mirrored).  Decided by abstract evaluation of computePSFunction over
+    a five-leaf proof for every cut, composed with the label -> colour choice of setLeafPS{,W,S}Labeling."""
+    from boolctor import Interp, Unmodelled, Thrown, Ret
+    r = res.rule('ps-colour-monotone-along-the-sequence', 'for every cut of a five-leaf proof computePSFunction is evaluated abstractly; composed with setLeafPS/PSW/PSSLabeling the colour of '
+                 'each shared variable never moves from a towards b when the cut moves right (A grows)', floor=9)
+    f = fx.func('opensmt::SingleInterpolationComputationContext::computePSFunction')
+    n = len(LEAVES)
+    labels_at = {}
+    try:
+        for c in range(1, n):
+            def shared(x, c=c):
+                return any(x in LEAVES[i] for i in range(c)) and any(x in LEAVES[i] for i in range(c, n))
+            it = Interp(fx, f, '?', None)
+            it.oracle = {
+                'getLeaves': lambda i, a, nd: list(range(n)),
+                'getNode': lambda i, a, nd: ('node', a[-1]),
+                'isLeaf': lambda i, a, nd: True,
+                'getType': lambda i, a, nd: ('enum', 'CLA_ORIG'),
+                'getClauseRef': lambda i, a, nd: ('cref', i.val(nd['recv'])[1]),
+                'getClauseColor': lambda i, a, nd, c=c: ('enum', 'I_A' if a[-1][1] < c else 'I_B'),
+                'getClause': lambda i, a, nd: [('lit', x, False) for x in LEAVES[i.val(nd['recv'])[1]]] + [('lit', 'local%d' % i.val(nd['recv'])[1], True)],
+                'var': lambda i, a, nd: ('var', a[0][1]),
+                'getVarClassFromCache': lambda i, a, nd, c=c, shared=shared: ('enum', 'I_AB' if shared(a[-1][1]) else ('I_A' if any(a[-1][1] in LEAVES[j] for j in range(c)) else 'I_B')),
+            }
+            out = it.run([])
+            if not isinstance(out, dict):
+                raise Unmodelled('computePSFunction does not return a map')
+            for x in ('v', 'w', 'u'):
+                if shared(x):
+                    if ('var', x) not in out:
+                        res.bad(r, 'ps-label-missing', fx.loc(f), 'computePSFunction: a shared variable that occurs in original leaves on both sides of the cut gets no label; the leaf labelling '
+                                'dereferences the end iterator for it')
+                    else:
+                        labels_at[(x, c)] = out[('var', x)]
+                elif ('var', x) in out and False:
+                    pass
+    except Thrown:
+        raise AnalysisBroken('computePSFunction throws on the abstract proof')
+    except Unmodelled as e:
+        raise AnalysisBroken('computePSFunction is outside the modelled subset: %s' % e)
+    for fn in ('setLeafPSLabeling', 'setLeafPSWLabeling', 'setLeafPSSLabeling'):
+        g = fx.func('opensmt::SingleInterpolationComputationContext::' + fn)
+        lams = g.get('lambdas') or []
+        if len(lams) != 1:
+            raise AnalysisBroken('%s: expected one colouring lambda, found %d' % (fn, len(lams)))
+        colour_of = {}
+        for lab in ('I_A', 'I_B'):
+            it = Interp(fx, g, '?', None)
+            chosen = []
+            it.oracle = {k: (lambda i, a, nd, k=k: chosen.append(k)) for k in RANK}
+            it.env = {g['params'][1]['n']: {('var', 'v'): ('enum', lab)}, 'v': ('var', 'v'), 'node': ('node', 0)}
+            it.steps = 0
+            try:
+                it.block(lams[0]['body'])
+            except Ret:
+                pass
+            except Unmodelled as e:
+                raise AnalysisBroken('%s is outside the modelled subset: %s' % (fn, e))
+            if len(chosen) != 1:
+                raise AnalysisBroken('%s: label %s colours the variable %d times' % (fn, lab, len(chosen)))
+            colour_of[lab] = chosen[0]
+        for x in ('v', 'w', 'u'):
+            seq = [(c, labels_at[(x, c)]) for c in range(1, n) if (x, c) in labels_at]
+            cols = [(c, colour_of.get(l[1])) for c, l in seq]
+            if any(cl is None for _, cl in cols):
+                raise AnalysisBroken('computePSFunction returns a label other than I_A / I_B: %s' % seq)
+            drop = [(c1, a, c2, b) for (c1, a), (c2, b) in zip(cols, cols[1:]) if RANK[b] < RANK[a]]
+            if drop:
+                c1, a, c2, b = drop[0]
+                res.bad(r, 'ps-colour-moves-backwards:%s' % fn, fx.loc(f), '%s with computePSFunction: a shared variable occurring in %s of %d leaves is coloured %s for the cut after leaf %d and '
+                        '%s for the later cut after leaf %d; along a sequence the colour may only move from b towards a, otherwise I_k and A_(k+1) need not imply I_(k+1)'
+                        % (fn, sum(1 for i in LEAVES if x in LEAVES[i]), n, a[5:].lower(), c1, b[5:].lower(), c2))
+            else:
+                res.ok(r, '%s, variable in leaves %s: colours %s' % (fn, [i for i in LEAVES if x in LEAVES[i]], [cl[5:].lower() for _, cl in cols]))
